@@ -1,4 +1,6 @@
 import PprofVerif.Lemmas.GraphValid
+import PprofVerif.Lemmas.TagFramesMain
+import PprofVerif.Lemmas.AggregateFields
 /-!
 # C04 — report flat, cum and edge values equal their definition over samples
 
@@ -104,5 +106,113 @@ example : let ss : List (GSample Nat) := [{ frames := [1, 1, 2], w := 5, d := 0 
 -- "1" selects column 1, "7" is out of range, "" selects the last column (no default type)
 example : let p : Profile := { (default : Profile) with sampleType := [⟨[111], []⟩, ⟨[115], []⟩] }
     (sampleIndexByName p [49] = some 1 ∧ sampleIndexByName p [55] = none ∧ sampleIndexByName p [] = some 1) := by decide
+
+/-! ## entry identity: `-tagroot` / `-tagleaf` pseudo frames and `Aggregate` -/
+
+/-- `addLabelNodes` (internal/driver/tagroot.go; string labels) on a valid profile: the abstract
+sample list of the rewritten profile is the original one in which the stack of every sample `s` has
+become `rootFrames ++ frames ++ leafFrames` — one pseudo frame per root key in key order outermost
+(first key = new root), one per leaf key innermost (last key = new leaf), each named by the
+comma-joined values of that label on `s` and filed under the key (`Graph.extendFrames`); values,
+divisors and the diff-base mark are untouched.  Hence every figure theorem above holds of the
+extended stacks (instantiated here for cum, flat, edge weight and total). -/
+theorem tagroot_tagleaf_frames (clean : Str → Str) (p : Profile) (o : GOpts) (rootKeys leafKeys : List Str)
+    (vi : Nat) (mean : Bool) (hv : p.Valid) (ss : List (GSample NodeInfo))
+    (h : samplesOf clean p o vi mean = some ss) :
+    let ss' := List.zipWith (fun s g => ({ g with frames := extendFrames clean rootKeys leafKeys s g.frames } : GSample NodeInfo))
+      p.samples ss
+    samplesOf clean (addLabelNodes p rootKeys leafKeys) o vi mean = some ss' ∧
+    (∀ n, (newGraph allKept ss').cum n = cumSpec ss' n ∧ (newGraph allKept ss').flat n = flatSpec ss' n) ∧
+    (∀ a b, (newGraph allKept ss').weight a b = edgeSpec ss' a b) ∧ computeTotalWD ss' = totalSpec ss' := by
+  intro ss'
+  exact ⟨samplesOf_addLabelNodes clean p o rootKeys leafKeys vi mean hv ss h,
+    fun n => ⟨graph_cum_eq_spec ss' n, graph_flat_eq_spec ss' n⟩,
+    fun a b => graph_edge_eq_spec ss' a b, total_eq_spec ss'⟩
+
+-- non-vacuity: one sample main (label k=v) with tagroot=k, tagleaf=k: stack  [v@k, main, v@k]
+example :
+    let fn : Function := { id := 1, name := [109], systemName := [], filename := [], startLine := 0 }
+    let loc : Location := { id := 1, mappingID := 0, address := 0, lines := [{ functionID := 1, line := 0, column := 0 }], isFolded := false }
+    let s : Sample := { locationIDs := [1], values := [5], label := [([107], [[118]])], numLabel := [], numUnit := [] }
+    let p : Profile := { (default : Profile) with sampleType := [⟨[99], []⟩], samples := [s], locations := [loc], functions := [fn] }
+    p.Valid ∧
+    (samplesOf id (addLabelNodes p [[107]] [[107]]) {} 0 false).map (fun ss => ss.map (fun g => g.frames.map (·.name))) =
+      some [[[118], [109], [118]]] := by decide
+
+/-- `Profile.Aggregate` preserves validity for every flag combination (it blanks fields, ids are
+untouched) — so on a valid profile the abstraction to samples is defined at every granularity and
+all figure theorems apply to the aggregated profile. -/
+theorem aggregate_valid (clean : Str → Str) (p : Profile) (f : AggFlags) (o : GOpts) (vi : Nat) (mean : Bool)
+    (hv : p.Valid) (hvi : vi < p.sampleType.length) :
+    (aggregate p f).Valid ∧ ∃ ss, samplesOf clean (aggregate p f) o vi mean = some ss :=
+  ⟨PV.Graph.aggregate_valid p f hv,
+   samplesOf_defined clean (aggregate p f) o vi mean (PV.Graph.aggregate_valid p f hv) hvi⟩
+
+/-- the stacks of the aggregated profile are the stacks computed on the ORIGINAL records with the
+fields the flags blank taken as blank and, without inline frames, only the outermost line of every
+location (`Graph.framesAgg` / `nodeInfoAgg`): id lookups commute with the in-place rewriting. For
+the CLI: `aggregateG` decodes granularity × noinlines × showcolumns (`driver.aggregate`). -/
+theorem aggregate_frames (clean : Str → Str) (p : Profile) (o : GOpts) (g : Granularity) (noInlines showColumns : Bool)
+    (s : Sample) :
+    framesOf clean (aggregateG p g noInlines showColumns) o s =
+      match aggFlags g noInlines showColumns with
+      | none => framesOf clean p o s
+      | some f => framesAgg clean p o f s := by
+  unfold aggregateG
+  cases aggFlags g noInlines showColumns with
+  | none => rfl
+  | some f => exact framesOf_aggregate clean p o f s
+
+/-- per granularity, which fields can distinguish two entries: `functions` entries carry no address,
+file, line or column; `filefunctions` no address, line, column; `files` no address, name, line,
+column; `lines` no address (and no column unless `showcolumns`); with `noinlines` every location
+contributes exactly one entry. -/
+theorem granularity_identity (clean : Str → Str) (p : Profile) (o : GOpts) (g : Granularity) (noInlines showColumns : Bool)
+    (f : AggFlags) (hf : aggFlags g noInlines showColumns = some f) (s : Sample) (fs : List NodeInfo)
+    (h : framesAgg clean p o f s = some fs) :
+    (∀ ni ∈ fs,
+      (g = .functions → ni.address = 0 ∧ ni.file = [] ∧ ni.lineno = 0 ∧ ni.columnno = 0) ∧
+      (g = .filefunctions → ni.address = 0 ∧ ni.lineno = 0 ∧ ni.columnno = 0) ∧
+      (g = .files → ni.address = 0 ∧ ni.name = [] ∧ ni.origName = [] ∧ ni.lineno = 0 ∧ ni.columnno = 0) ∧
+      (g = .lines → ni.address = 0 ∧ (showColumns = false → ni.columnno = 0))) ∧
+    (noInlines = true → fs.length = s.locationIDs.length) := by
+  constructor
+  · intro ni hni
+    obtain ⟨l, ln, objfile, hn⟩ := framesAgg_mem clean p o f s fs h ni hni
+    obtain ⟨ha, hl, hc, hfl, hfn⟩ := nodeInfoAgg_fields clean p o f l ln objfile ni hn
+    refine ⟨?_, ?_, ?_, ?_⟩
+    · rintro rfl
+      simp only [aggFlags, Option.some.injEq] at hf
+      subst hf
+      exact ⟨ha rfl, hfl rfl, (hl rfl).1, (hl rfl).2⟩
+    · rintro rfl
+      simp only [aggFlags, Option.some.injEq] at hf
+      subst hf
+      exact ⟨ha rfl, (hl rfl).1, (hl rfl).2⟩
+    · rintro rfl
+      simp only [aggFlags, Option.some.injEq] at hf
+      subst hf
+      exact ⟨ha rfl, (hfn rfl).1, (hfn rfl).2, (hl rfl).1, (hl rfl).2⟩
+    · rintro rfl
+      simp only [aggFlags, Option.some.injEq] at hf
+      subst hf
+      exact ⟨ha rfl, fun hs => hc hs⟩
+  · rintro rfl
+    apply framesAgg_length_noinline clean p o f s ?_ fs h
+    cases g <;> simp [aggFlags] at hf <;> (try subst hf) <;> rfl
+
+-- non-vacuity: location with two lines (inlined g in f), granularity functions+noinlines keeps only the
+-- outermost line and blanks file/line: one entry named "f"
+example :
+    let fns : List Function := [{ id := 1, name := [102], systemName := [], filename := [47, 97], startLine := 3 },
+                                { id := 2, name := [103], systemName := [], filename := [47, 98], startLine := 7 }]
+    let loc : Location := { id := 1, mappingID := 0, address := 4096, lines := [{ functionID := 2, line := 10, column := 2 }, { functionID := 1, line := 20, column := 4 }], isFolded := false }
+    let s : Sample := { locationIDs := [1], values := [5], label := [], numLabel := [], numUnit := [] }
+    let p : Profile := { (default : Profile) with sampleType := [⟨[99], []⟩], samples := [s], locations := [loc], functions := fns }
+    p.Valid ∧ (aggregateG p .functions true false).Valid ∧
+    framesOf id (aggregateG p .functions true false) {} s =
+      some [{ name := [102], origName := [], address := 0, file := [], startLine := 0, lineno := 0, columnno := 0, objfile := [] }] ∧
+    (framesOf id (aggregateG p .lines false false) {} s).map (fun fs => fs.map (fun n => (n.name, n.lineno, n.columnno))) =
+      some [([102], 20, 0), ([103], 10, 0)] := by decide
 
 end PV.Props.C04
